@@ -761,7 +761,7 @@ def run(tier, seed):
             for _ in range(per_hist if thorough else 2):
                 plan.add(n, tree, targets, reloads, random_schedule(rng, tree, targets, reloads, claims), "late", claims)
                 n_late += 1
-    nrand = 1500 if thorough else 150
+    nrand = 1200 if thorough else 150
     for k in range(nrand):
         n = names[k % len(names)]
         tree, tips = random_tree(rng, metas[n], ard)
